@@ -22,6 +22,7 @@ type Program struct {
 	PPkgs map[string]*packages.Package
 	Funcs map[string]*ssa.Function // canonical key -> function (see funcKey)
 	Dir   string
+	MutableGlobals map[*ssa.Global]bool // package-level variables assigned outside package initialisation
 }
 
 func loadProgram(dir string, patterns []string) (*Program, error) {
@@ -61,6 +62,34 @@ func loadProgram(dir string, patterns []string) (*Program, error) {
 		if k != "" {
 			if _, dup := P.Funcs[k]; !dup || fn.Synthetic == "" {
 				P.Funcs[k] = fn
+			}
+		}
+	}
+	// A-INIT: a package-level variable that is only assigned during package initialisation is a constant
+	P.MutableGlobals = map[*ssa.Global]bool{}
+	for fn := range ssautil.AllFunctions(prog) {
+		if fn.Name() == "init" || strings.HasPrefix(fn.Name(), "init#") || fn.Synthetic == "package initializer" {
+			continue
+		}
+		for _, b := range fn.Blocks {
+			for _, ins := range b.Instrs {
+				if st, ok := ins.(*ssa.Store); ok {
+					v := st.Addr
+					for {
+						switch a := v.(type) {
+						case *ssa.FieldAddr:
+							v = a.X
+							continue
+						case *ssa.IndexAddr:
+							v = a.X
+							continue
+						}
+						break
+					}
+					if g, ok := v.(*ssa.Global); ok {
+						P.MutableGlobals[g] = true
+					}
+				}
 			}
 		}
 	}
